@@ -136,6 +136,32 @@ def replay_co(model, side="below", defaults=False):
 
 # ------------------------------------------------------------------ jobs
 
+def replay_dbw_array(model):
+    """Real b_water_McCain_dp on a float64 pressure grid (ndarray and Series): element by element the derivative of the
+    parent (central differences, Richardson) at the caller's pressures, and the caller's grid is left as it was."""
+    import numpy as np
+    import pandas as pd
+    from bluebonnet.fluids import water
+    m = model_floats(model, ["T", "p", "p2"], default=dict(T=200.0, p=1500.0, p2=6000.0))
+    grid = np.array([m["p"], m["p2"], 0.5 * (m["p"] + m["p2"])], dtype=float)
+    problems = []
+    for label, mk in (("ndarray", lambda g: g.copy()), ("Series", lambda g: pd.Series(g.copy()))):
+        arg = mk(grid)
+        try:
+            got = np.asarray(water.b_water_McCain_dp(m["T"], arg), float)
+        except Exception as ex:  # noqa: BLE001
+            problems.append(f"{label}: b_water_McCain_dp raised {ex!r} on a float64 pressure grid")
+            continue
+        if not np.array_equal(np.asarray(arg, float), grid):
+            problems.append(f"{label}: the caller's pressure grid {grid.tolist()} was overwritten with {np.asarray(arg, float).tolist()}")
+        for j, q in enumerate(grid):
+            num = _richardson(lambda x: float(water.b_water_McCain(m["T"], x)), float(q), max(1e-2, 1e-4 * q))
+            if got.shape != grid.shape or abs(got[j] - num) > 1e-6 * abs(num) + 1e-14:
+                problems.append(f"{label}: element {j} (p={q!r}): b_water_McCain_dp = {got[j] if got.shape == grid.shape else got!r} vs the parent's derivative {num!r}")
+                break
+    return bool(problems), {"what": "; ".join(problems[:2]) or "array form: derivative of the parent, grid left alone", "inputs": m}
+
+
 def job_water(job):
     water = load_sym("bluebonnet.fluids.water")
     job.encoded(water, "b_water_McCain", "b_water_McCain_dp")
@@ -148,6 +174,32 @@ def job_water(job):
         job.prove(f"water/dBw_dp[path{k}]", pr.pc + [not_close(simp(d), hand)], bound="T,p box",
                   replay=replay_dbw, note="syntactic" if d == P(hand) else None)
         job.prove(f"water/reach[path{k}]", pr.pc, expect="sat")
+    # the same on a float64 pressure grid: element by element the scalar result, and the caller's grid is left alone (a
+    # derivative evaluated on a grid that is then re-used - c_w = -dBw/dp / Bw - must see the caller's pressures)
+    from ..shims.np_shim import SymArray
+    from .common import snapshot, touched, fresh
+    p2 = fresh("p2", pos=True)
+    dom2 = dom + [T.b_le(T.Poly.const(Fraction("14.7")), P(p2)), T.b_le(P(p2), T.Poly.const(20000))]
+
+    def run_arr():
+        arr = SymArray([vs["p"], p2], "f8")
+        snap = snapshot(arr)
+        out = water.b_water_McCain_dp(vs["T"], arr)
+        return out, [water.b_water_McCain_dp(vs["T"], q) for q in (vs["p"], p2)], touched(snap)
+    for k, pr in enumerate(paths(job, run_arr, dom2, catch=(Exception,))):
+        if pr.exc is not None:
+            job.prove(f"water/dBw_dp on a pressure grid raises {type(pr.exc).__name__}[path{k}]", pr.pc, bound="T,p box", replay=replay_dbw_array)
+            continue
+        out, scal, was = pr.value
+        if was:
+            job._violation(f"water/dBw_dp leaves the caller's pressure grid alone[path{k}]", {}, {"what": was, "replayer": "replay_dbw_array", "replayer_kwargs": {}}, None)
+        else:
+            job.record(f"water/dBw_dp leaves the caller's pressure grid alone[path{k}]", "unsat", 0.0, note="effect check on the path")
+        if not isinstance(out, SymArray) or len(out.d) != 2:
+            job.prove(f"water/dBw_dp on a pressure grid: one value per pressure[path{k}]", pr.pc, bound="T,p box", replay=replay_dbw_array)
+            continue
+        job.prove(f"water/dBw_dp on a pressure grid == scalar results element by element[path{k}]",
+                  pr.pc + [T.b_or(*[not_close(out.d[j], scal[j], abs_tol=Fraction(0)) for j in range(2)])], bound="T,p box", replay=replay_dbw_array)
         check_defined(job, f"water/path{k}", pr)
         # translator validation against the real functions
         from bluebonnet.fluids import water as rw
